@@ -57,10 +57,9 @@ pub fn binary<F: RawFloat, const FORMAT: u128>(num: &Number, lossy: bool) -> Ext
     // disambiguate the float. If it's even, and exactly halfway, this
     // step fails.
     let power2 = shared::calculate_power2::<F, FORMAT>(num.exponent, ctlz);
-    if -power2 + 1 >= 64 {
-        // Have more than 63 bits below the minimum exponent, must be 0.
-        // Since we can't have partial digit rounding, this is true always
-        // if the power-of-two >= 64.
+    if -power2 + 1 > 64 {
+        // Have more than 64 bits below the minimum exponent, must be 0:
+        // the value is below half of the smallest denormal float.
         return fp_zero;
     }
 
@@ -69,9 +68,14 @@ pub fn binary<F: RawFloat, const FORMAT: u128>(num: &Number, lossy: bool) -> Ext
     // relative to the current leading zeros of the float.
     let shift = shared::calculate_shift::<F>(power2);
 
-    // Determine if we can see if we're at a halfway point.
-    let last_bit = 1u64 << shift;
-    let truncated = last_bit - 1;
+    // Determine if we can see if we're at a halfway point. With a shift
+    // of 64, all bits are truncated, and the bit we round to is 0 (even).
+    let last_bit = if shift == 64 {
+        0
+    } else {
+        1u64 << shift
+    };
+    let truncated = last_bit.wrapping_sub(1);
     let halfway = lower_n_halfway(shift as u64);
     let is_even = mantissa & last_bit == 0;
     let is_halfway = mantissa & truncated == halfway;
